@@ -155,9 +155,15 @@ class SimFS:
     order: optional callable(list, where) -> list deciding directory listing order.
     """
 
-    def __init__(self, scratch, plan=None, order=None, mutating_only=True):
+    def __init__(self, scratch, plan=None, order=None, mutating_only=True, wplan=None, oplan=None):
         self.scratch = os.path.abspath(scratch)
         self.plan = dict(plan or {})
+        # the same faults addressed by the index among mutating calls (wplan) or among opens for
+        # writing (oplan): a fault placed this way always lands in the output phase of a run
+        self.wplan = dict(wplan or {})
+        self.oplan = dict(oplan or {})
+        self.wcalls = 0
+        self.ocalls = 0
         self.order = order
         self.log = []        # (op, relpath(s)..., extra)
         self.calls = 0       # index of the next fault point
@@ -197,6 +203,14 @@ class SimFS:
         rels = tuple(self.rel(p) for p in paths)
         self.log.append((op, idx, self.depth) + rels)
         fault = self.plan.get(idx)
+        if op != 'open_r':
+            if fault is None:
+                fault = self.wplan.get(self.wcalls)
+            self.wcalls += 1
+            if op == 'open_w':
+                if fault is None:
+                    fault = self.oplan.get(self.ocalls)
+                self.ocalls += 1
         if fault is None:
             return None
         if fault[0] == 'crash':
